@@ -5,7 +5,7 @@ LEVEL = "model_checking"
 
 BASE = dict(QueueCap=2, MaxInflight=2, MaxPending=1, MutKeepTimedOut=False, NReq=3, CBs={True, False},
             Kinds={"inter", "final", "abort"}, CloseStats={"Good", "BadCommunicationError"}, MaxChunks=6, MaxDepth=8,
-            MinCloseDepth=0, ForceClose=False)
+            MinCloseDepth=0, ForceClose=False, Script=[], AllStale=True)
 PREDICTED = ("took", "id", "hit", "h", "closed", "out", "st")
 
 
@@ -27,17 +27,21 @@ def run(ctx):
     ctx.model_check("mutant_keep_timed_out", "MCClientTransport", dict(BASE, MutKeepTimedOut=True, MaxDepth=8), ["C35"],
                     view="MView", expect_violation="C35")
     gens = []
-    for nm, c, cap in (("exhaustive", dict(BASE, ForceClose=True, MaxDepth=5 if q else 7, MaxChunks=4), 1500 if q else 60000),
-                       ("exhaustive_tight", dict(BASE, ForceClose=True, QueueCap=1, MaxInflight=1, MaxPending=2, CBs={True},
-                                                 CloseStats={"Good"}, MaxDepth=6 if q else 8, MaxChunks=5), 1000 if q else 60000)):
+    two = [["Submit", True], ["Submit", True], ["Poll"], ["Poll"]]           # two requests pending
+    three = [["Submit", True], ["Submit", True], ["Poll"], ["Submit", True]]   # one pending, one queued, one waiting for room
+    for nm, c, cap in (("exhaustive", dict(BASE, ForceClose=True, MaxDepth=5 if q else 7, MaxChunks=4), 1000 if q else 25000),
+                       ("exhaustive_two_pending", dict(BASE, ForceClose=True, Script=two, CBs={True}, CloseStats={"Good"},
+                                                       MaxDepth=4 + (4 if q else 6), MaxChunks=5), 1500 if q else 40000),
+                       ("exhaustive_tight", dict(BASE, ForceClose=True, Script=three, QueueCap=1, MaxInflight=1, MaxPending=2, CBs={True},
+                                                 CloseStats={"Good"}, MaxDepth=4 + (4 if q else 6), MaxChunks=5), 1000 if q else 30000)):
         h, r = ctx.gen(nm, "GenClientTransport", c)
         gens.append((nm, cfg_of(c), take(h, cap, ctx.seed)))
-    n = 150 if q else 6000
-    rnd = (("random", dict(BASE, ForceClose=True, NReq=6, MaxInflight=3, QueueCap=2, MaxPending=2, MaxChunks=14, MaxDepth=24, MinCloseDepth=16,
+    n = 150 if q else 4000
+    rnd = (("random", dict(BASE, ForceClose=True, NReq=6, MaxInflight=3, QueueCap=2, MaxPending=2, MaxChunks=14, MaxDepth=24, MinCloseDepth=16, AllStale=False,
                            CloseStats={"Good", "BadSecureChannelClosed"})),
-           ("random_tight", dict(BASE, ForceClose=True, NReq=5, MaxInflight=1, QueueCap=1, MaxPending=1, MaxChunks=12, MaxDepth=20, MinCloseDepth=12)))
+           ("random_tight", dict(BASE, ForceClose=True, NReq=5, MaxInflight=1, QueueCap=1, MaxPending=1, MaxChunks=12, MaxDepth=20, MinCloseDepth=12, AllStale=False, Kinds={"inter", "final"})))
     for nm, c in rnd:
-        h, r = ctx.gen(nm, "GenClientTransport", c, simulate="num=%d" % max(20, n // 4))
+        h, r = ctx.gen(nm, "GenClientTransport", c, simulate="num=%d" % max(40, n // 8))
         gens.append((nm, cfg_of(c), take(h, n, ctx.seed)))
     ctx.cov["exhaustive"] = True
 
@@ -49,8 +53,9 @@ def run(ctx):
     pipeline(ctx, "C35", "ctrans", "TraceClientTransport", gens, PREDICTED, nontrivial,
              "all interleavings of Submit (with / without response) / Poll (deadline check + take from the queue) / response chunks "
              "(intermediate, final, abort; for pending, unknown, completed and timed-out request ids; chunks of different responses "
-             "interleaved) / Expire / Close after which the behaviour is closed, exhaustive to a depth bound for two transport "
-             "configurations, plus random simulation to depth 20-24 with up to 6 requests, replayed on the real TransportState / "
+             "interleaved) / Expire / Close / Submit after close, exhaustive to a depth bound from three starting points (fresh "
+             "transport; two requests pending; queue of capacity 1 with one request pending, one queued and one waiting for room; a "
+             "deterministic sample when there are more behaviours than the tier replays), plus random simulation to depth 20-24 with up to 6 requests, replayed on the real TransportState / "
              "Request::send; non-trivial = a response delivered, another kind of completion, and a chunk for a request id that is "
              "no longer pending")
     ctx.assumptions += ["the harness stands in for TcpTransport::poll: it calls wait_for_outgoing_message / handle_incoming_message / "
